@@ -190,6 +190,10 @@ func (r *Raft) onAppendEntriesRequest(req *appendReq, c *conn) (rpcResult, error
 		}
 	}
 
+	// we are going to acknowledge our log up to lastLogIndex: entries that
+	// we appended ourselves as leader of an earlier term may not be flushed yet
+	r.storage.commitLog(r.lastLogIndex)
+
 	// valid req: let us consume entries
 	index, term, syncLog := req.prevLogIndex, req.prevLogTerm, false
 	if req.numEntries > 0 {
